@@ -32,6 +32,9 @@ RULE = ('histories on the real Bus with up to 4 raw scripted clients: connect+He
         'refcodec.encode_variant (unknown fields, free field order, flag bit 0x4); every third peer leaves INTERFACE out of its Hello '
         'and every fifth call to the bus driver carries none.')
 ASSUMPTIONS = ['how many copies of a broadcast a connection with several matching rules receives is not asserted',
+               'sender= in a match rule is not among the constraints the statements enumerate: a rule naming the sending '
+               'connection (by unique name, or by a well-known name it owns when the signal is sent) must let the signal through; '
+               'whether a rule naming another sender keeps it away is not asserted',
                'the answer to a message for an unowned destination is not asserted, only that no client receives it']
 
 BUS = 'org.freedesktop.DBus'
@@ -53,6 +56,13 @@ def _msg_fields(m, dest):
     if dest is not None:
         f[6] = dest
     return f
+
+
+def _rule_text(rule):
+    pairs = list(c12._expected_text_constraints(rule).items())
+    if rule.get('sender') is not None:
+        pairs.insert(1 if pairs and pairs[0][0] == 'type' else 0, ('sender', rule['sender']))
+    return R.format_match_rule(pairs)
 
 
 def run_history(case):
@@ -188,7 +198,13 @@ def run_history(case):
             if kind == 'addmatch':
                 ci = live[op[1] % len(live)]
                 rule = case['rules'][op[2] % len(case['rules'])]
-                text = R.format_match_rule(c12._expected_text_constraints(rule).items())
+                if len(op) > 3:
+                    rule = dict(rule, sender=WK[int(op[3][2:])] if str(op[3]).startswith('wk') else clients[op[3]].name)
+                elif (op[1] + op[2]) % 3 == 2:
+                    # the rule also names a SENDER: a well-known name (whoever owns it when the signal is sent - owned now or
+                    # not) or a unique name
+                    rule = dict(rule, sender=WK[op[2] % 2] if op[1] % 2 else clients[live[op[2] % len(live)]].name)
+                text = _rule_text(rule)
                 r = clients[ci].call_bus('AddMatch', 's', [text])
                 if r is None or r['type'] != 2:
                     out.append(Disc('addmatch.refused', '%s: rule %r -> %r' % (where, text, r and r['body'])))
@@ -200,7 +216,7 @@ def run_history(case):
                 if not rules[ci]:
                     continue
                 rule = rules[ci][op[2] % len(rules[ci])]
-                text = R.format_match_rule(c12._expected_text_constraints(rule).items())
+                text = _rule_text(rule)
                 r = clients[ci].call_bus('RemoveMatch', 's', [text])
                 if r is None or r['type'] != 2:
                     out.append(Disc('removematch.refused', '%s: rule %r -> %r' % (where, text, r and (r['fields'].get(4), r['body']))))
@@ -358,9 +374,15 @@ def run_history(case):
                     if s['dest'] is not None:
                         continue
                     ab = c12._abstract_for_oracle(s['abstract'])
-                    should = any(R.rule_matches(c12._rule_for_oracle(r), ab) for r in rules[ci])
+                    fits = [r for r in rules[ci] if R.rule_matches(c12._rule_for_oracle(r), ab)]
+                    # a rule's sender constraint is met by the connection that is (or owns, at this moment) that name
+                    strict = [r for r in fits if r.get('sender') is None or r['sender'] == clients[s['from']].name
+                              or owner.get(r['sender']) == s['from']]
                     n_got = sum(1 for m in bc if (m['fields'].get(7), m['serial']) == keyf(s))
-                    if bool(n_got) != should:
+                    # (sender= is not among the constraints C12 / C14 enumerate: that a rule naming ANOTHER sender keeps the
+                    # signal away is not asserted; that a rule naming THIS sender lets it through is)
+                    should = bool(strict)
+                    if bool(n_got) != should and not (n_got and fits and not strict):
                         nm = [c12._near_miss_key(r, ab) for r in rules[ci]]
                         out.append(Disc('broadcast.%s' % ('missed' if should else 'spurious'),
                                         '%s: %s holds rules %r; signal %r delivered %d times (near-miss keys %r)' % (
@@ -545,6 +567,15 @@ def enum_fixed(tier):
             yield {'nclients': 3, 'rules': [{}],
                    'ops': [['ownr', 0, 0], ['burst', [uc], [[0, 0]]], ['takeover', 1, 0], ['burst', [uc], [[0, 0]]]] + leaving +
                           [closing, ['burst', [uc], [[0, 0]]], ['own', 1, 0], ['burst', [uc], [[0, 0]]]]}
+    # rules naming a sender by well-known name: subscribed before anybody owns the name, or while somebody else does
+    for rule in ({'type': 'signal'}, {'member': 'Sig'}, {}):
+        bc0 = dict(bc, **{'from': 0})
+        bc2 = dict(bc, **{'from': 2})
+        yield {'nclients': 3, 'rules': [rule], 'ops': [['addmatch', 1, 0, 'wk0'], ['own', 0, 0], ['burst', [bc0], [[0, 0]]]]}
+        yield {'nclients': 3, 'rules': [rule],
+               'ops': [['ownr', 0, 0], ['addmatch', 1, 0, 'wk0'], ['burst', [bc0], [[0, 0]]], ['takeover', 2, 0],
+                       ['burst', [bc2], [[0, 0]]], ['burst', [bc0], [[0, 0]]]]}
+        yield {'nclients': 3, 'rules': [rule], 'ops': [['addmatch', 1, 0, 2], ['burst', [bc2], [[0, 0]]], ['burst', [bc0], [[0, 0]]]]}
     # the owner of a name and a client waiting for it both write that name into the sender field
     for frm in (0, 1):
         for t in (1, 2, 3, 4):
